@@ -741,6 +741,13 @@ class DataFileManager:
             if field_name not in table.column_names:
                 continue
 
+            # A definition spelled {"type": t, ...} declares the same column as t
+            # (cf. _iceberg_type_to_arrow); it used to slip past the test below,
+            # and a binary column then got the repr of its bytes as a *string*
+            # bound, against which string literals were pruned wrongly.
+            if isinstance(field_type, dict):
+                field_type = field_type.get("type", "string")
+
             # Skip complex types and binary - can't compute meaningful bounds
             if field_type in ("binary", "fixed", "list", "map", "struct"):
                 continue
